@@ -608,6 +608,13 @@ class Models:
             return OpaqueV("tuple." + attr)
         I.unsupported(node, f"attribute {attr} of {obj!r}")
 
+    def objfield_TableConverter(self, obj, attr, node):
+        if attr == "_unit_map":
+            g = GlobalMapV("convtable")
+            g.convtable = True
+            return g
+        return None
+
     def lookup_needs_currency(self, obj: UnitV, attr, node) -> bool:
         cur = self.prog.cls("Currency")
         if attr in cur.methods or attr in cur.attrs:
@@ -801,6 +808,18 @@ class Models:
         st.effects.append(("mapread", g, key, self.where(node)))
         if getattr(g, "registry", False):
             return self.registry_lookup(g, key, node)
+        if getattr(g, "convtable", False):
+            if not (isinstance(key, TupleV) and len(key.items) == 2 and all(isinstance(k, UnitV) for k in key.items)):
+                I.unsupported(node, "conversion table key")
+            a, b = (self.st.ufind(k.uid) for k in key.items)
+            memo = getattr(g, "memo", None)
+            if memo is None:
+                memo = g.memo = {}
+            if (a, b) not in memo:
+                memo[(a, b)] = bool(I.choose(2, f"convtable[({a},{b})]", ["KeyError", "row"]))
+            if not memo[(a, b)]:
+                I.raise_("KeyError", node)
+            return TupleV([Num(RF.atom(("tf", a, b)), "exact"), Num(RF.atom(("to", a, b)), "exact")])
         if isinstance(key, TupleV):
             # operation cache: hit == recomputation by the cache discipline (rule R17.1); Engine A follows the miss
             if self.cache_hits:
